@@ -31,6 +31,8 @@ def run(ctx):
                                                     for i, sd in enumerate(seeds)])
         if agg["crash_in_log"] == 0:
             raise vlib.Undecided("vacuous: no crash inside a log append in the random runs")
+        if not ctx.quick():
+            storelib.design_only(ctx, "big", dict(WalSteps="TRUE", CrashAt='{"wal", "idle"}', MaxStmts=5, MaxRows=3, MaxFlush=1, MaxCrash=2, Tables='{"t1"}', Vals="{1, 2}"), cov, timeout=600)
     finally:
         pool.close()
     for f in ("crash-wal-len", "crash-wal-body", "crash-wal-sync", "torn-tail", "recover"):
